@@ -146,6 +146,14 @@ Fixpoint relabel_sv (arr : list N) (mask : list bool) (sv split remain : N) : li
   end.
 Definition countN (arr : list N) (s : N) : N :=
   fold_right (fun l acc => if l =? s then 1 + acc else acc) 0 arr.
+(* voxels of [sv] that lie under the mask: the splitSize PositionedBlock.SplitSupervoxel returns *)
+Fixpoint count_masked (arr : list N) (mask : list bool) (sv : N) : N :=
+  match arr with
+  | [] => 0
+  | l :: r =>
+    let m := match mask with b :: _ => b | [] => false end in
+    (if (l =? sv) && m then 1 else 0) + count_masked r (match mask with _ :: t => t | [] => [] end) sv
+  end.
 
 (* splitSupervoxelThread per block: relabel and compare with the counts the index now holds *)
 Fixpoint split_sv_blocks (vx : list (N * list N)) (blks : list N) (sv split remain : N)
@@ -157,7 +165,7 @@ Fixpoint split_sv_blocks (vx : list (N * list N)) (blks : list N) (sv split rema
     | None => split_sv_blocks vx r sv split remain masks idx'     (* "should have been split but was nil": skipped *)
     | Some arr =>
       let arr' := relabel_sv arr (match aget N.eqb b masks with Some m => m | None => [] end) sv split remain in
-      let splitn := countN (relabel_sv arr (match aget N.eqb b masks with Some m => m | None => [] end) sv 1 0) 1 in
+      let splitn := count_masked arr (match aget N.eqb b masks with Some m => m | None => [] end) sv in
       let svn := countN arr sv in
       if (svn - splitn =? cnt idx' b remain) && (splitn =? cnt idx' b split)
       then split_sv_blocks (aset N.eqb b arr' vx) r sv split remain masks idx'
